@@ -146,7 +146,7 @@ class Variant:
                          "  depfile = %s.d" % esc_path(s.id))
         if s.deps:
             lines.append("  deps = " + s.deps)
-        if s.restat:
+        if s.restat and not getattr(s, "restat_at_file_level", False):
             lines.append("  restat = 1")
         if s.generator and not getattr(s, "generator_at_build", False):
             lines.append("  generator = 1")
